@@ -385,4 +385,30 @@ static void vf_mutants(const uint8_t *b, size_t n, uint8_t *scratch, size_t cap,
     }
 }
 
+/* A complete root container followed by junk: T trailing bytes for T around every 8 / 16 / 17 / 18-bit boundary (a remainder test
+ * done in a narrower type accepts exactly 256 or 65536 extra bytes), the junk ending in the matching END byte so that a first/last
+ * byte quick check cannot reject it. cb(bytes, n, kind, label, u) for each of 4 roots x 20 lengths x 5 fill bytes. */
+#define VF_TRAILING_MAX (262144 + 16)
+typedef void (*vf_trailing_cb)(const uint8_t *b, size_t n, int kind, const char *label, void *u);
+static inline void vf_trailing_inputs(vf_trailing_cb cb, void *u)
+{
+    static const uint8_t roots[][12] = { { 0x40, 0x41 }, { 0x42, 0x43 }, { 0x40, 0x14, 0x01, 'a', 0x10, 0x01, 0x41 }, { 0x42, 0x10, 0x01, 0x40, 0x14, 0x01, 'a', 0x42, 0x44, 0x43, 0x41, 0x43 } };
+    static const size_t rlen[] = { 2, 2, 7, 12 };
+    static const size_t T[] = { 1, 2, 3, 127, 128, 255, 256, 257, 511, 512, 32767, 32768, 65535, 65536, 65537, 131071, 131072, 131073, 196608, 262144 };
+    static const uint8_t fills[] = { 0x00, 0x41, 0x43, 0x40, 0xff };
+    static uint8_t *b;
+    char label[120];
+    if (!b) b = (uint8_t *) vf_xmalloc(VF_TRAILING_MAX);
+    for (int r = 0; r < 4; r++)
+        for (size_t ti = 0; ti < sizeof T / sizeof T[0]; ti++)
+            for (size_t fi = 0; fi < sizeof fills; fi++) {
+                int kind = roots[r][0] == 0x40 ? VK_OBJ : VK_ARR;
+                memcpy(b, roots[r], rlen[r]);
+                memset(b + rlen[r], fills[fi], T[ti]);
+                b[rlen[r] + T[ti] - 1] = kind == VK_OBJ ? 0x41 : 0x43;
+                snprintf(label, sizeof label, "trailing family: complete root %d followed by %zu bytes of 0x%02x ending in an END byte", r, T[ti], fills[fi]);
+                cb(b, rlen[r] + T[ti], kind, label, u);
+            }
+}
+
 #endif
